@@ -116,7 +116,8 @@ def dump(n, depth=0):
             v = repr(getattr(n, 'value', None))
         except Exception as e:
             v = 'ERR:' + type(e).__name__
-        return [type(n).__name__, id(n), n.raw_text, v, id(n.token_store) if n.store_handle else None]
+        return [type(n).__name__, id(n), n.raw_text, v, id(n.token_store) if n.store_handle else None,
+                getattr(n, 'claimed', None)]
     out = [type(n).__name__, id(n), id(n._token_store)]
     if depth > 30:
         return out
@@ -267,6 +268,13 @@ def make_donor(root, d, made):
         roots = pool()[0]
         parent = copy.deepcopy(resolve(roots[k0], path[:-1]))
         return resolve(parent, path[-1:]), parent
+    if k == 'twin':
+        # the corresponding node of a deep copy / second parse of the document: attached, at the same store position
+        twin = copy.deepcopy(root) if d.get('how', 'copy') == 'copy' else gen_docs.parse_ok(gen_docs.print_model(root))
+        return resolve(twin, d['path']), twin
+    if k == 'store_tok':
+        v = list(root.token_store)[d['idx']]
+        return v, v
     if k == 'edge_pair':
         # two free copies put into one fresh store: the first touches only its start, the second only its end
         from autobean_refactor.models.spacing import Whitespace
@@ -341,7 +349,7 @@ def coq_slice(s):
 def coq_op(op, info):
     k = op['op']
     if k == 'setitem':
-        return f'(OSetInt {common.coq_z(op["i"])})'
+        return f'(OSetInt {common.coq_z(op["i"])} {common.coq_bool(bool(info.get("same")))})'
     if k == 'setslice':
         return f'(OSetSlice {coq_slice(op["s"])})'
     if k == 'delitem':
@@ -401,6 +409,12 @@ def call(root, op, want_corr=True):
             pass
     dstores0 = [(donor_store(v), [t.raw_text for t in donor_store(v)]) for v in values]
     spans = [bool(st) and v.first_token is st[0] and v.last_token is st[-1] for v, (st, _) in zip(values, dstores0)]
+    twin = None
+    if op.get('twin'):
+        twin = copy.deepcopy(root) if op['twin'] == 'copy' else gen_docs.parse_ok(gen_docs.print_model(root))
+        droots = droots + [twin]
+        twin_T0 = list(twin.token_store)
+        twin_x0 = [t.raw_text for t in twin_T0]
     dump0 = json.dumps([dump(root)] + [dump(r) for r in droots], default=str)
     print0 = gen_docs.print_model(root)
     # ---- correspondence: state before
@@ -418,6 +432,11 @@ def call(root, op, want_corr=True):
                 rep = w._repeated
                 citems = [(ids.get(it.first_token), ids.get(it.last_token)) for it in rep.items]
                 ph = ids.get(rep.placeholder)
+                if op['op'] == 'setitem' and values:
+                    try:
+                        info['same'] = rep.items[op['i']] is values[0]
+                    except IndexError:
+                        info['same'] = False
                 seps = [coq_sep(t) for t in w._separators]
                 sepsb = [coq_sep(t) for t in w._separators_before]
             else:
@@ -467,7 +486,18 @@ def call(root, op, want_corr=True):
                 list(w)
         elif k in ('claim_inter', 'unclaim_inter'):
             w = getattr(parent, name)
-            (w.claim_interleaving_comments if k == 'claim_inter' else w.unclaim_interleaving_comments)(values)
+            (w.claim_interleaving_comments if k == 'claim_inter' else w.unclaim_interleaving_comments)(
+                None if op.get('all') else values)
+        elif k == 'spacing':
+            src = op['src']
+            if src == 'twin':
+                toks = tuple(getattr(resolve(twin, op['parent']), name))
+            elif src == 'elsewhere':
+                toks = tuple(getattr(resolve(root, op['other']), name))
+            else:
+                from autobean_refactor.models.spacing import Whitespace, Newline
+                toks = tuple(Whitespace.from_raw_text(x) if x.strip('\n') else Newline.from_raw_text(x) for x in op['texts'])
+            setattr(parent, name, toks)
         elif k in ('set_opt', 'set_req'):
             setattr(parent, name, values[0] if values else None)
         elif k == 'set_value':
@@ -518,7 +548,7 @@ def call(root, op, want_corr=True):
     # ---- state after
     T1 = list(store)
     rec = {'exn': type(exn).__name__ if exn else None, 'findings': findings, 'case': None,
-           'bad_donor': any(d['k'] in ('attached_doc', 'attached_pool') or (d['k'] in ('child_of_copy', 'edge_child', 'edge_pair') and not sp)
+           'bad_donor': any(d['k'] in ('attached_doc', 'attached_pool', 'twin') or (d['k'] in ('child_of_copy', 'edge_child', 'edge_pair') and not sp)
                             for d, sp in zip(op.get('donors', []), spans)),
            'child_span': any(d['k'] in ('child_span', 'child_span_doc', 'child_of_copy') and v is not r and sp
                              for d, (v, r), sp in zip(op.get('donors', []), made, spans))}
@@ -557,6 +587,9 @@ def call(root, op, want_corr=True):
             st1 = donor_store(v)
             if [id(t) for t in st1] != [id(t) for t in st0] or [t.raw_text for t in st0] != tx0:
                 what.append('a donor store changed')
+        if twin is not None and ([id(t) for t in twin.token_store] != [id(t) for t in twin_T0]
+                                 or [t.raw_text for t in twin_T0] != twin_x0):
+            what.append('the other document changed')
         try:
             if gen_docs.print_model(root) != print0:
                 what.append('printed text changed')
@@ -568,15 +601,19 @@ def call(root, op, want_corr=True):
             findings.append((SIG_ATOMIC, f'{op["op"]} on {type(parent).__name__}.{name} raised '
                                          f'{type(exn).__name__} after: ' + '; '.join(sorted(set(what)))))
     else:
-        if op.get('kind') == 'cmt':
+        if twin is not None and op['op'] == 'spacing' and op['src'] == 'twin' and \
+                {id(t) for t in T1} & {id(t) for t in twin_T0}:
+            findings.append((SIG_REUSE, f'{op["op"]} on {type(parent).__name__}.{name} accepted tokens that live in another '
+                                        f'document: a token is now in two stores'))
+        elif op.get('kind') == 'cmt':
             pass
         elif rec['bad_donor'] and not (op['op'] in ('set_opt', 'set_req') and info.get('same')) \
-                and not _is_current(parent, name, kind, values, ch0):
+                and not _is_current(parent, name, kind, values, ch0, op):
             findings.append((SIG_REUSE, f'{op["op"]} on {type(parent).__name__}.{name} accepted a node that is attached elsewhere'))
         elif rec['child_span']:
             findings.append((SIG_REUSE_CHILD, f'{op["op"]} on {type(parent).__name__}.{name} accepted a child of a free-standing parent '
                                               f'({type(values[0]).__name__} spanning the whole store of {type(droots[0]).__name__})'))
-        elif not op.get('nomon'):
+        elif not op.get('nomon') and not op.get('loose'):
             _frame_monitor(findings, op, parent, name, raw_slot, T0, T1, texts0, pf0, pl0, ch0, values, result)
             if vref is not None:
                 try:
@@ -646,9 +683,16 @@ def _view_monitor(findings, op, parent, name, vref):
             findings.append((SIG_VIEW, f'{where}: unexpected elements appeared'))
 
 
-def _is_current(parent, name, kind, values, ch0):
-    """assigning the current child to its own slot (`node is repl`) is a no-op, not a reuse"""
-    return kind in ('opt', 'req') and values and id(values[0]) in ch0 and ch0[id(values[0])][0] == name
+def _is_current(parent, name, kind, values, ch0, op=None):
+    """assigning the current child to its own slot (`node is repl`, `xs[i] = xs[i]`) is a no-op, not a reuse"""
+    if kind in ('opt', 'req'):
+        return values and id(values[0]) in ch0 and ch0[id(values[0])][0] == name
+    if kind == 'rep' and op is not None and op['op'] == 'setitem' and values:
+        try:
+            return getattr(parent, name)[op['i']] is values[0] and id(values[0]) in ch0
+        except Exception:
+            return False
+    return False
 
 
 def _frame_monitor(findings, op, parent, name, raw_slot, T0, T1, texts0, pf0, pl0, ch0, values, result):
@@ -728,6 +772,17 @@ def _frame_monitor(findings, op, parent, name, raw_slot, T0, T1, texts0, pf0, pl
     kept1 = [id(t) for t in W1 if id(t) in ids0]
     if kept0 != kept1:
         findings.append((SIG_FRAME, f'{where}: surviving tokens changed their order'))
+    # "directly adjacent": a call that edits one place has one window without any surviving visible token in it, i.e.
+    # every separator that appears / disappears is contiguous with the child (calls that edit several places -
+    # extended slices, drop_many, non-contiguous view operations - are exempt: their window spans the places)
+    k = op['op']
+    multi = (k == 'drop_many' or (k in ('setslice', 'delslice') and op.get('s') and op['s'][2] not in (None, 1))
+             or (op.get('kind') == 'val' and k in ('setslice', 'delslice', 'clear', 'discard', 'extend')))
+    if not multi:
+        stray = [t for t in W1 if id(t) in ids0 and not is_sep_text(t.raw_text) and id(t) not in new_tokens]
+        if stray:
+            findings.append((SIG_CHANGED, f'{where}: separators changed away from the child: the changed region also spans '
+                                          f'the untouched token {stray[0].raw_text!r}'))
     # 4. layout of repeated slots of the parent
     _, _, P, _, _ = _mods()
     for sname, skind, _ in slots_of(parent):
@@ -1003,31 +1058,119 @@ def gen_cost_op(rng, root):
 
 
 def gen_comment_op(rng, root):
-    """claim / unclaim interleaving comments with a comment that is not there"""
-    models = _mods()[0]
+    """claim / unclaim interleaving comments: everything, or a batch mixing comments that really are (claimable /
+    claimed) interleaving comments of the list with comments that are not (foreign copies, comments of another
+    document, someone's leading / trailing comment, already unclaimed ones)"""
     cands = []
-    comments = []
     for path, n in walk(root):
         for name, kind, _ in slots_of(n):
             if kind == 'rep' and hasattr(getattr(n, name), 'claim_interleaving_comments'):
                 cands.append((path, name))
-            if kind == 'rep':
-                for i, c in enumerate(getattr(n, name)):
-                    if type(c).__name__ == 'BlockComment':
-                        comments.append(path + [[name, i]])
     if not cands:
         return None
-    path, name = rng.choice(cands)
+    # prefer lists that contain comments
+    rich = [c for c in cands if any(type(x).__name__ == 'BlockComment' for x in getattr(resolve(root, c[0]), c[1]))]
+    path, name = rng.choice(rich) if rich and rng.random() < 0.8 else rng.choice(cands)
+    parent = resolve(root, path)
+    w = getattr(parent, name)
+    base = {'parent': path, 'attr': name, 'kind': 'cmt', 'nomon': True}
+    r = rng.random()
+    if r < 0.2:
+        return {**base, 'op': rng.choice(['claim_inter', 'unclaim_inter']), 'all': True, 'donors': []}
+    kind = rng.choice(['claim_inter', 'unclaim_inter', 'unclaim_inter'])
+    toks = list(root.token_store)
+    pos = {id(t): i for i, t in enumerate(toks)}
+    real, wrong = [], []
+    for i, c in enumerate(w):
+        if type(c).__name__ == 'BlockComment':
+            (real if kind == 'unclaim_inter' else wrong).append({'k': 'attached_doc', 'path': path + [[name, i]]})
+    a, b = pos.get(id(parent.first_token)), pos.get(id(parent.last_token))
+    owned = set()
+    for p2, n2 in walk(root):
+        for nm, kd, _ in slots_of(n2):
+            try:
+                for c in slot_children(n2, nm, kd):
+                    if type(c).__name__ == 'BlockComment':
+                        owned.add(id(c))
+                        if nm in ('raw_leading_comment', 'raw_trailing_comment'):
+                            wrong.append({'k': 'attached_doc', 'path': p2 + [[nm]]})
+            except Exception:
+                pass
+    if a is not None and b is not None:
+        for i in range(a, b + 1):
+            t = toks[i]
+            if type(t).__name__ == 'BlockComment' and id(t) not in owned:
+                (real if kind == 'claim_inter' else wrong).append({'k': 'store_tok', 'idx': i})
+    refs = [r_ for key, rs in pool()[1].items() for r_ in rs if key[1] in ('raw_leading_comment', 'raw_trailing_comment')]
+    if refs:
+        wrong.append({'k': rng.choice(['copy', 'attached_pool']), 'ref': rng.choice(refs)})
+    if not wrong and not real:
+        return None
     ds = []
-    if comments and rng.random() < 0.6:
-        ds.append({'k': 'attached_doc', 'path': rng.choice(comments)})
-    refs = [r for key, rs in pool()[1].items() for r in rs if key[1] in ('raw_leading_comment', 'raw_trailing_comment')]
-    if refs and (not ds or rng.random() < 0.5):
-        ds.append({'k': rng.choice(['copy', 'attached_pool']), 'ref': rng.choice(refs)})
+    for d in rng.sample(real, min(len(real), rng.choice([1, 1, 2, 3]))):
+        ds.append(d)
+    nwrong = rng.choice([1, 1, 1, 2]) if rng.random() < 0.8 else 0
+    for d in rng.sample(wrong, min(len(wrong), nwrong)):
+        ds.insert(rng.randint(0, len(ds)), d)
     if not ds:
         return None
-    return {'parent': path, 'attr': name, 'kind': 'cmt', 'op': rng.choice(['claim_inter', 'unclaim_inter']), 'donors': ds,
-            'nomon': True}
+    return {**base, 'op': kind, 'donors': ds}
+
+
+def gen_spacing_op(rng, root):
+    """raw_spacing_before/after = tokens: fresh ones, the tokens of the same place in a copy / second parse of the
+    document (they live in another store, at the same position), or spacing tokens from elsewhere in the document"""
+    nodes = [(p_, n) for p_, n in walk(root) if hasattr(type(n), 'raw_spacing_after') and p_]
+    if not nodes:
+        return None
+    for _ in range(10):
+        path, n = rng.choice(nodes)
+        attr = rng.choice(['raw_spacing_after', 'raw_spacing_before'])
+        try:
+            cur = getattr(n, attr)
+        except Exception:
+            continue
+        if not cur and rng.random() < 0.7:
+            continue
+        base = {'parent': path, 'attr': attr, 'kind': 'spc', 'op': 'spacing', 'nomon': True}
+        r = rng.random()
+        if r < 0.55:
+            return {**base, 'src': 'twin', 'twin': rng.choice(['copy', 'copy', 'parse'])}
+        if r < 0.75:
+            other = rng.choice(nodes)[0]
+            if other != path:
+                return {**base, 'src': 'elsewhere', 'other': other}
+        return {**base, 'src': 'fresh', 'texts': rng.choice([[' '], ['  '], ['\t'], [' ', '\n'], []])}
+    return None
+
+
+def gen_payee_op(rng, root):
+    """Transaction.raw_payee / raw_narration = node (free or attached): a refusal must not leave the implied narration"""
+    txns = [(p_, n) for p_, n in walk(root) if type(n).__name__ == 'Transaction']
+    if not txns:
+        return None
+    path, t = rng.choice(txns)
+    strs = []
+    for p2, n2 in walk(root):
+        for nm, kd, _ in slots_of(n2):
+            try:
+                for i, c in enumerate(slot_children(n2, nm, kd)):
+                    if type(c).__name__ == 'EscapedString':
+                        strs.append(p2 + ([[nm, i]] if kd == 'rep' else [[nm]]))
+            except Exception:
+                pass
+    refs = [r_ for key, rs in pool()[1].items() for r_ in rs if key[1] in ('raw_string0', 'raw_string1', 'raw_booking', 'raw_name')]
+    attr = rng.choice(['raw_payee', 'raw_payee', 'raw_narration'])
+    r = rng.random()
+    if strs and r < 0.45:
+        d = {'k': 'attached_doc', 'path': rng.choice(strs)}
+    elif refs and r < 0.7:
+        d = {'k': 'attached_pool', 'ref': rng.choice(refs)}
+    elif refs and r < 0.9:
+        d = {'k': 'copy', 'ref': rng.choice(refs)}
+    else:
+        return {'parent': path, 'attr': attr, 'kind': 'cust', 'op': 'set_opt', 'donors': [], 'nomon': True}
+    return {'parent': path, 'attr': attr, 'kind': 'cust', 'op': 'set_opt', 'donors': [d], 'nomon': True}
 
 
 def gen_op(rng, root):
@@ -1085,12 +1228,16 @@ def gen_op(rng, root):
             if k == 'extend':
                 return {**base, 'values': [rng.choice(vals) for _ in range(rng.randint(0, 3))]}
             return {**base, 'values': []}
-        if r < 0.235:
+        if r < 0.24:
             o = gen_comment_op(rng, root)
             if o is not None:
                 return o
+        if r < 0.26:
+            o = gen_spacing_op(rng, root) if rng.random() < 0.7 else gen_payee_op(rng, root)
+            if o is not None:
+                return o
         # raw_text of a value token (refusals) ---------------------------------------------------
-        if r < 0.27:
+        if r < 0.285:
             toks = [(n, k) for n, k, _ in slots_of(parent) if k in ('opt', 'req')]
             rng.shuffle(toks)
             for n, k in toks:
@@ -1114,6 +1261,8 @@ def gen_op(rng, root):
             d = donor(bad)
             if rng.random() < 0.08:
                 d = {'k': 'attached_doc', 'path': path + [[name]]}      # the current child itself
+            elif rng.random() < 0.07:
+                d = {'k': 'twin', 'path': path + [[name]], 'how': rng.choice(['copy', 'copy', 'parse'])}
             if d is None:
                 continue
             return {**base, 'op': 'set_req', 'donors': [d]}
@@ -1124,6 +1273,8 @@ def gen_op(rng, root):
             d = donor(bad)
             if cur is not None and rng.random() < 0.08:
                 d = {'k': 'attached_doc', 'path': path + [[name]]}
+            elif cur is not None and rng.random() < 0.07:
+                d = {'k': 'twin', 'path': path + [[name]], 'how': rng.choice(['copy', 'copy', 'parse'])}
             if d is None:
                 continue
             return {**base, 'op': 'set_opt', 'donors': [d]}
@@ -1152,6 +1303,12 @@ def gen_op(rng, root):
             o = {**base, 'op': k, 'donors': ds}
             if k != 'append':
                 o['i'] = rand_index(rng, n)
+            if k == 'setitem' and n and rng.random() < 0.12:
+                j = rng.randrange(n)
+                o['i'] = rng.choice([j, j - n])
+                # the very node that is already there (a no-op), or its twin in a copy of the document (refused)
+                o['donors'] = [{'k': 'attached_doc', 'path': path + [[name, j]]} if rng.random() < 0.5 else
+                               {'k': 'twin', 'path': path + [[name, j]], 'how': 'copy'}]
             return o
         if k in ('setslice', 'extend') and rng.random() < 0.12:
             ds = edge_batch(rng, root, parent, name)
@@ -1184,6 +1341,12 @@ def gen_op(rng, root):
         if k == 'drop_many':
             l = [i for i in range(n) if rng.random() < 0.5]
             rng.shuffle(l)
+            if l and rng.random() < 0.4:
+                l = [i - n if rng.random() < 0.4 else i for i in l]          # counted from the end
+                if rng.random() < 0.5:
+                    l.insert(rng.randrange(len(l) + 1), rng.choice(l))       # the same position twice
+            if rng.random() < 0.15:
+                l.insert(rng.randrange(len(l) + 1), rng.choice([n, n + 1, -n - 1]))    # must be refused up front
             return {**base, 'op': k, 'l': l, 'donors': []}
         return {**base, 'op': k, 'donors': []}
     return None
@@ -1227,6 +1390,9 @@ def shrink_script(text, script, sig):
     return cur
 
 
+CMT = ('2000-01-01 * "c"\n    ; ic1\n    kk: 1\n    ; ic2\n    jj: 2\n    ; ic3\n    Assets:A  1 USD\n    ; ic4\n'
+       '    Assets:B  2 USD\n    ; ic5\n    Assets:C\n\n; float1\n\n2000-01-05 open Assets:X\n\n; float2\n\n'
+       '2000-01-06 open Assets:Y\n\n; float3\n\n')
 RICH = ('2000-01-01 * "p" "n" #t1 ^l1 #t2 ^l2 #t3\n    k1: 1\n    k2: "v"\n    k3: TRUE\n    Assets:A  1 USD\n'
         '    Assets:B  2 USD\n    Assets:C  -3 USD\n2000-01-02 open Assets:A  USD, EUR, GBP, CAD\n'
         '2000-01-03 custom "budget" "a" 1 TRUE Assets:A\n')
@@ -1270,10 +1436,12 @@ def run_slots(ctx: common.Ctx, props, n_docs: int, n_ops: int):
                 reported.add(sig)
                 ctx.monitor_failure(sig, what, {'text': text, 'script': script})
     for di in range(n_docs):
-        mode = rng.choice(['general', 'general', 'general', 'views', 'views', 'cost'])
+        mode = rng.choice(['general', 'general', 'general', 'general', 'views', 'views', 'views', 'cost', 'cmt'])
         text = cost_ledger(rng) if mode == 'cost' else gen_docs.ledger(rng, n_dir=rng.choice([1, 2, 3, 4, 6]))
         if mode == 'views' and rng.random() < 0.7:
             text = RICH + text
+        if mode == 'cmt':
+            text = CMT + text
         root = gen_docs.parse_ok(text)
         if root is None:
             continue
@@ -1286,6 +1454,7 @@ def run_slots(ctx: common.Ctx, props, n_docs: int, n_ops: int):
                 target = rng.choice(tg)
         ctx.dist('docs:' + mode)
         script = []
+        loose = False
         for oi in range(n_ops if mode != 'views' else rng.randint(4, 7)):
             try:
                 if mode == 'views' and oi == 0:
@@ -1295,12 +1464,16 @@ def run_slots(ctx: common.Ctx, props, n_docs: int, n_ops: int):
                     op = gen_view_step(rng, root, target[0], target[1])
                 elif mode == 'cost':
                     op = gen_cost_op(rng, root) if rng.random() < 0.8 else gen_op(rng, root)
+                elif mode == 'cmt':
+                    op = gen_comment_op(rng, root) if rng.random() < 0.7 else gen_op(rng, root)
                 else:
                     op = gen_op(rng, root)
             except Exception:
                 op = None
             if op is None:
                 break
+            if loose:
+                op['loose'] = True     # comments were un-claimed: no longer a normally parsed document (C03 does not apply)
             script.append(op)
             try:
                 rec = call(root, op)
@@ -1308,6 +1481,8 @@ def run_slots(ctx: common.Ctx, props, n_docs: int, n_ops: int):
                 # the harness could not even observe the call (tree unusable): stop this document
                 ctx.dist('harness_skip:' + type(e).__name__)
                 break
+            if op['op'] == 'unclaim_inter' and rec['exn'] is None:
+                loose = True
             cls = op_class(op, rec)
             ctx.dist(cls)
             ctx.case({'doc': di, 'op': cls}, nontrivial=True)
